@@ -271,7 +271,11 @@ def replay(v):
     if v["case"].get("special"):
         from ..acc import Acc
         a = Acc(ID, 0, 1, 600)
-        (runtime_nested_case if v["case"].get("special") == "runtime_nested" else cycles_case)(a, v["case"])
+        from ..acc import StopShard
+        try:
+            (runtime_nested_case if v["case"].get("special") == "runtime_nested" else cycles_case)(a, v["case"])
+        except StopShard:
+            pass  # enough stalled executions seen
         return a.violations, None
     res, viols = replay_case(v["case"], MONITORS, v["prefix"])
     return viols, res.trace
